@@ -15,7 +15,21 @@ seed,wt=sys.argv[1],sys.argv[2]
 m=json.load(open(seed+'/meta.json'))
 for d in m.get('demo_files',[]):
     dst=os.path.join(wt,d['dst']); os.makedirs(os.path.dirname(dst),exist_ok=True); shutil.copy(os.path.join(seed,d['src']),dst)
-print(m.get('demo_cmd',''))
+import re
+cmds=[]
+bydir={}
+for d in m.get('demo_files',[]):
+    src=open(os.path.join(seed,d['src'])).read()
+    names=re.findall(r'^func (Test\w+)\(',src,re.M)
+    bydir.setdefault(os.path.dirname(d['dst']),[]).extend(names)
+for dr,names in bydir.items():
+    if names:
+        if dr.startswith('etcd/'):
+            parts=dr.split('/'); mod='/'.join(parts[:2]); rel='/'.join(parts[2:]) or '.'
+            cmds.append("(cd %s && go test -vet=off -count=1 -run '^(%s)$' ./%s)"%(mod,'|'.join(names),rel))
+        else:
+            cmds.append("go test -vet=off -count=1 -run '^(%s)$' ./%s"%('|'.join(names),dr))
+print(' && '.join(cmds))
 PY
 }
 if [ "$MODE" = verify ]; then
